@@ -17,7 +17,10 @@ where
     S: Serializer,
 {
     use std::io::ErrorKind::*;
-    match *kind {
+    // The value must be written as the `u32` that `deserialize_io_error_kind_from_u32` reads: an
+    // untyped literal is an `i32`, which variable-length integer encodings (e.g. bincode's
+    // default options) write differently from a `u32`.
+    let kind: u32 = match *kind {
         NotFound => 0,
         PermissionDenied => 1,
         ConnectionRefused => 2,
@@ -37,8 +40,8 @@ where
         Other => 16,
         UnexpectedEof => 17,
         _ => 16,
-    }
-    .serialize(serializer)
+    };
+    kind.serialize(serializer)
 }
 
 /// Deserializes [`io::ErrorKind`] from a `u32`.
